@@ -10,3 +10,8 @@ package minibus
 //@ type listener
 //@   guarded_by m: ch
 //@   lockinv m: recv.ch == nil || !chanClosed(recv.ch)
+//@
+//@ // delivery to listeners is verified on Bus.Send itself (C03/C10); callers see it as an event that writes no heap
+//@ func (*Bus).Send(ctx, event) (ok)
+//@   trusted
+//@   modifies nothing
